@@ -36,6 +36,9 @@ static struct qb_log_target *verif_qb_log_target_get(int32_t pos) { return &veri
 struct verif_pf_call { char fmt[24]; int kind; long long ival; double dval; const char *sval; char *dst; size_t size; int ret; };
 struct verif_pf_call verif_pf[VERIF_PF_MAX];
 unsigned verif_pf_n;
+int verif_pf_script[VERIF_PF_MAX];   /* scripted would-be lengths of the first verif_pf_scripted output calls */
+unsigned verif_pf_scripted;
+const char *verif_pf_text;          /* the caller's text buffer, when the harness announces it (tells output calls from the width paste) */
 size_t verif_pf_total;        /* sum of the would-be lengths handed out */
 #ifdef VERIF_CBMC
 static int verif_rec_snprintf(char *dst, size_t size, const char *fmt, ...)
@@ -45,7 +48,7 @@ static int verif_rec_snprintf(char *dst, size_t size, const char *fmt, ...)
 	int ls = 0;
 	va_start(ap, fmt);
 	while (fmt[fl] != 0) { if (fmt[fl] == 'l') ls++; fl++; }
-	if (fl == 2 && fmt[0] == '%' && fmt[1] == 'd' && size <= MINI_FORMAT_STR_LEN_V) {
+	if (fl == 2 && fmt[0] == '%' && fmt[1] == 'd' && (verif_pf_text != 0 ? !__CPROVER_same_object(dst, verif_pf_text) : size <= MINI_FORMAT_STR_LEN_V)) {
 		/* width pasted into the one-directive format: exact decimal text */
 		int v = va_arg(ap, int);
 		char tmp[12];
@@ -77,11 +80,15 @@ static int verif_rec_snprintf(char *dst, size_t size, const char *fmt, ...)
 	c->dst = dst; c->size = size;
 	VERIF_ND(int32_t, nd_pf_ret);
 	__CPROVER_assume(nd_pf_ret >= 0 && nd_pf_ret <= VERIF_PF_RET_MAX);
+	/* a harness may script the would-be lengths (so that it can state its input class on them up front and the
+	 * native replay, where the real snprintf runs, sees the same lengths) */
+	if (verif_pf_n - 1 < verif_pf_scripted) nd_pf_ret = verif_pf_script[verif_pf_n - 1];
 	c->ret = nd_pf_ret;
 	verif_pf_total += (size_t)nd_pf_ret;
 	if (size > 0) {
 		__CPROVER_assert(__CPROVER_w_ok(dst, size), "the decoder hands snprintf only space inside the caller's buffer");
 		size_t k = (size_t)nd_pf_ret < size ? (size_t)nd_pf_ret : size - 1;
+		for (size_t i = 0; i < k; i++) dst[i] = 'x';      /* k printed characters (none of them NUL), then the terminator */
 		dst[k] = 0;
 	}
 	return nd_pf_ret;
